@@ -45,15 +45,26 @@ TRANSLATE_FALLBACK = ("every fact read here decides which header lists / byte st
 
 
 def _fact(fails, what, assumed, fn):
-    """fn() -> None | text of a RECOGNISED difference (hard failure); Unreadable / any parsing accident -> soft"""
+    """fn() -> None | text of a difference.  SOFT (`unreadable:`) only when the construct cannot be found at all
+    (the function is gone / renamed, no comparison of the two quantities exists); a function that is found but whose
+    content is not the modelled one, or not understood, is a HARD failure (when in doubt, hard)."""
     try:
         d = fn()
         if d:
             fails.append("%s: %s (the model assumes %s)" % (what, d, assumed))
     except F.Unreadable as ex:
-        fails.append("unreadable: %s: %s; the model assumes %s" % (what, ex, assumed))
-    except Exception as ex:     # a pattern that is simply not there any more
-        fails.append("unreadable: %s: %r; the model assumes %s" % (what, ex, assumed))
+        if getattr(ex, "absent", False) or re.match(r"fn \w+ not found", str(ex)):
+            fails.append("unreadable: %s: %s; the model assumes %s" % (what, ex, assumed))
+        else:
+            fails.append("%s: not the modelled construct: %s (the model assumes %s)" % (what, ex, assumed))
+    except Exception as ex:
+        fails.append("%s: not the modelled construct: %r (the model assumes %s)" % (what, ex, assumed))
+
+
+def _absent(msg):
+    ex = F.Unreadable(msg)
+    ex.absent = True
+    return ex
 
 
 def _pred_fn(src, name, env=None):
@@ -193,7 +204,7 @@ def translate():
         req = F.fn_body(ed, "on_request_headers")
         ma = re.search(r"\{\s*request\.parsing_phase\s*=\s*kawa::ParsingPhase::Terminated\s*;", req)
         if not ma:
-            raise F.Unreadable("the termination of an unframed request is not found")
+            raise _absent("the termination of an unframed request is not found")
         ifs = [x.start() for x in re.finditer(r"\bif\s", req[:ma.start()])]
         if not ifs:
             raise F.Unreadable("no condition guards the termination")
@@ -221,7 +232,7 @@ def translate():
             elif "received" in b_ and ("expected" in a_ or "declared" in a_):
                 ops.append({">": "<", "<": ">", ">=": "<=", "<=": ">="}.get(op, op))
         if not ops:
-            raise F.Unreadable("no comparison between the DATA total and the declared length")
+            raise _absent("no comparison between a `received` total and an `expected` / `declared` length")
         if sorted(ops) != sorted([">", "!=", "!="]):
             return "DATA total vs declared length is compared with %r" % ops
     _fact(fails, "h2.rs handle_data_frame / trailers", "reset when total > declared on any DATA, and when total != declared at END_STREAM (DATA or trailers)", ledger)
